@@ -20,7 +20,7 @@ for p in props:
             "engine": "lean4-proof+correspondence",
             "level_claimed": {"category": "proof", "text": c["text"], "design_ref": c.get("design_ref", "DESIGN.md section 5")},
             "level_note": c["note"],
-            "technique": c["technique"],
+            "technique": c["technique"] + (" + equivalence theorems between the model and the Go source translated to Lean on every run (tools/gotrans, tie T3)" if registry.PROPS[p].get("trans_modules") else ""),
         })
     else:
         na.append({"property_id": p, "reason": getattr(T, "PENDING", {}).get(p) or T.NOT_CLAIMED.get(p, "no check registered in this commit")})
@@ -35,7 +35,7 @@ m = {
         "add_only": True,
     },
     "engines": [{"name": "lean4-proof+correspondence", "path": "/verif/check", "serves_properties": [c["property_id"] for c in checks],
-                 "kind_free_text": "Lean 4 theorems over a hand-written executable model (lean/Gws), tied to /repo on every run by a differential harness (harness/, -tags verif) against the compiled Lean driver and by facts regenerated from the Go AST (tools/factgen)"}],
+                 "kind_free_text": "Lean 4 theorems over a hand-written executable model (lean/Gws), tied to /repo on every run by a differential harness (harness/, -tags verif) against the compiled Lean driver by facts regenerated from the Go AST (tools/factgen), and by equivalence theorems with Go function bodies translated to Lean on every run (tools/gotrans)"}],
     "checks": checks,
     "notes": T.NOTES,
     "not_applicable": na,
